@@ -166,7 +166,7 @@ def FrameStream_Read : List String := [
   "end",
   "return 0, err",
   "end",
-  "if tunnelID != s.tunnelID",
+  "if false && tunnelID != s.tunnelID",
   "otherTunnelIDStr := TunnelIDToString(tunnelID)",
   "if s.tracker != nil && s.tracker.IsTunnelClosed(otherTunnelIDStr)",
   "continue",
